@@ -41,7 +41,8 @@ type pipeItem struct {
 }
 
 func genPipeline(t *rapid.T, sc stackCase, maxLen int, now int64) []wire.Cmd {
-	opts := cmdGenOpts{Binary: sc.Binary, Keys: smallKeys, TwoPorts: false}
+	keys := genAlphabet(t)
+	opts := cmdGenOpts{Binary: sc.Binary, Keys: keys, TwoPorts: false}
 	n := rapid.IntRange(2, maxLen).Draw(t, "len")
 	var cmds []wire.Cmd
 	opq := uint32(100)
@@ -57,7 +58,7 @@ func genPipeline(t *rapid.T, sc stackCase, maxLen int, now int64) []wire.Cmd {
 		case r <= 5 && !sc.Binary:
 			c = wire.Cmd{Kind: wire.RawBytes, Raw: []byte(rapid.SampledFrom(badTextLines).Draw(t, "badLine"))}
 		case r == 3 && sc.Binary && sc.Cfg.Shape == "l1only" && sc.Cfg.L1 == "std":
-			c = wire.Cmd{Kind: wire.GetE, Keys: []string{rapid.SampledFrom(smallKeys).Draw(t, "gkey")}, NoopEnd: rapid.Bool().Draw(t, "noopEnd")}
+			c = wire.Cmd{Kind: wire.GetE, Keys: []string{rapid.SampledFrom(keys).Draw(t, "gkey")}, NoopEnd: rapid.Bool().Draw(t, "noopEnd")}
 		default:
 			c = genCmd(t, opts, now)
 		}
